@@ -239,3 +239,104 @@ Proof.
   - eapply same_core_trans; [exact H0|]. eapply same_core_trans; [apply same_sess_core; exact A1|exact A2].
   - apply no_emit_app; [exact B1|]. apply no_emit_app; [exact B2|]. destruct (raised o2); [apply no_emit_nil|apply no_emit_ret].
 Qed.
+
+(* ---- the callback machinery only reports callbacks and log lines ---- *)
+Definition is_cbout (o : out) : Prop := match o with OCallback _ _ | OLog _ => True | _ => False end.
+Definition cb_only (os : list out) : Prop := Forall is_cbout os.
+
+Lemma cb_only_app a b : cb_only a -> cb_only b -> cb_only (a ++ b).
+Proof. intros. apply Forall_app. auto. Qed.
+
+Lemma fire_icb_cb_only c k ok c' o : fire_icb c k ok = (c', o) -> cb_only o.
+Proof.
+  unfold fire_icb, cb_only. intros E. destruct k; try (injection E as <- <-; try destruct ok; repeat constructor).
+  destruct (dget fid (c_pfrags c)) as [fs|]; [|injection E as <- <-; constructor].
+  destruct (forallb is_some _); injection E as <- <-; [|constructor].
+  destruct (fs_ucb fs); repeat constructor.
+Qed.
+
+Lemma fire_cb_cb_only c k ok c' o : fire_cb c k ok = (c', o) -> cb_only o.
+Proof.
+  unfold fire_cb. destruct k as [i|rid mseq ty p i]; [apply fire_icb_cb_only|].
+  destruct (zmem rid (c_done c)); [intros E; injection E as <- <-; constructor|].
+  destruct (negb ok); [intros E; injection E as <- <-; constructor|]. apply fire_icb_cb_only.
+Qed.
+
+Lemma fire_all_cb_only ks : forall c ok c' o, fire_all c ks ok = (c', o) -> cb_only o.
+Proof.
+  induction ks as [|k ks IH]; intros c ok c' o E; cbn [fire_all] in E.
+  - injection E as <- <-. constructor.
+  - destruct (fire_cb c k ok) as [c1 o1] eqn:E1. destruct (fire_all c1 ks ok) as [c2 o2] eqn:E2.
+    injection E as <- <-. apply cb_only_app; [eapply fire_cb_cb_only; eassumption|eapply IH; eassumption].
+Qed.
+
+Lemma resolve_cb_only ok c s c' o : resolve ok c s = (c', o) -> cb_only o.
+Proof.
+  unfold resolve. intros E.
+  match type of E with context [dget s (c_pcbs ?c0)] => destruct (dget s (c_pcbs c0)) as [ks|] end.
+  - match type of E with context [fire_all ?c0 ks ok] => destruct (fire_all c0 ks ok) as [c1 o1] eqn:E1 end.
+    injection E as <- <-. eapply fire_all_cb_only; eassumption.
+  - injection E as <- <-. constructor.
+Qed.
+
+Lemma ack_loop_cb_only h snap : forall c c' o, ack_loop c h snap = (c', o) -> cb_only o.
+Proof.
+  induction snap as [|[s t] r IH]; intros c c' o E; cbn [ack_loop] in E.
+  - injection E as <- <-. constructor.
+  - dpair E c1 o1 E1. destruct (ack_loop c1 h r) as [c2 o2] eqn:E2. injection E as <- <-.
+    apply cb_only_app; [|eapply IH; eassumption].
+    destruct (hdr_acks _ _ s); [eapply resolve_cb_only; eassumption|].
+    destruct (_ >? _); [eapply resolve_cb_only; eassumption|]. injection E1 as <- <-. constructor.
+Qed.
+
+Lemma timeout_loop_cb_only strict now snap : forall c c' o, timeout_loop strict c now snap = (c', o) -> cb_only o.
+Proof.
+  induction snap as [|[s t] r IH]; intros c c' o E; cbn [timeout_loop] in E.
+  - injection E as <- <-. constructor.
+  - dpair E c1 o1 E1. destruct (timeout_loop strict c1 now r) as [c2 o2] eqn:E2. injection E as <- <-.
+    apply cb_only_app; [|eapply IH; eassumption].
+    match type of E1 with (if ?b then _ else _) = _ => destruct b end; [eapply resolve_cb_only; eassumption|].
+    injection E1 as <- <-. constructor.
+Qed.
+
+(* the receive path keeps the liveness clock it has just set, and the hello timer only ever
+   goes to 0 *)
+Lemma recv_msgs_clock ms : forall c now orcs c' o, recv_msgs c now ms orcs = (c', o) ->
+  c_last_recv c' = c_last_recv c /\ (c_hello_sent c' = c_hello_sent c \/ c_hello_sent c' = 0)
+  /\ c_conn_cb c' = c_conn_cb c.
+Proof.
+  induction ms as [|m r IH]; intros c now orcs c' o E; cbn [recv_msgs] in E.
+  - injection E as <- <-. auto.
+  - destruct (bf_insert (c_bf_msg c) (w_seq m)) as [bf|]; [|eapply IH; eassumption].
+    match type of E with context [match ?x with (_, _) => _ end] => destruct x as [[c1 o1] orcs'] eqn:E1 end.
+    assert (H1 : c_last_recv c1 = c_last_recv c /\ (c_hello_sent c1 = c_hello_sent c \/ c_hello_sent c1 = 0)
+                 /\ c_conn_cb c1 = c_conn_cb c).
+    { assert (Hh : forall ty c'' o'', recv_handshake (c <| c_bf_msg := bf |>) ty (hd no_oracle orcs) = (c'', o'') ->
+                c_last_recv c'' = c_last_recv c /\ (c_hello_sent c'' = c_hello_sent c \/ c_hello_sent c'' = 0)
+                /\ c_conn_cb c'' = c_conn_cb c).
+      { intros ty c'' o'' Eh. unfold recv_handshake in Eh.
+        destruct ty, (c_server (c <| c_bf_msg := bf |>)); try (injection Eh as <- <-; cbn; auto).
+        - destruct (negb _); [injection Eh as <- <-; cbn; auto|].
+          destruct (negb _); injection Eh as <- <-; unfold send_type; cbn; auto.
+        - destruct (o_parse _ =? 6); [injection Eh as <- <-; cbn; auto|].
+          destruct (negb _); injection Eh as <- <-; unfold send_type; cbn; auto.
+        - destruct (negb _); [injection Eh as <- <-; cbn; auto|].
+          destruct (o_temp_token _) as [t|]; [|injection Eh as <- <-; cbn; auto].
+          destruct (t =? _); injection Eh as <- <-; cbn; auto. }
+      destruct (w_type m).
+      - injection E1 as <- <- <-. cbn. auto.
+      - destruct (recv_handshake _ CLIENT_HELLO _) as [c'' o''] eqn:Eh. injection E1 as <- <- <-. eapply Hh; eassumption.
+      - destruct (recv_handshake _ SERVER_HELLO _) as [c'' o''] eqn:Eh. injection E1 as <- <- <-. eapply Hh; eassumption.
+      - destruct (recv_handshake _ CHALLENGE_RESP _) as [c'' o''] eqn:Eh. injection E1 as <- <- <-. eapply Hh; eassumption.
+      - injection E1 as <- <- <-. cbn. auto.
+      - injection E1 as <- <- <-. cbn. auto.
+      - injection E1 as <- <- <-. cbn. auto.
+      - destruct (recv_fragment _ now (w_seq m) (w_payload m)) as [c'' o''] eqn:Ef. injection E1 as <- <- <-.
+        unfold recv_fragment in Ef. destruct (_ <? _)%nat; [injection Ef as <- <-; cbn; auto|].
+        injection Ef as <- <-. destruct (fr_complete _); cbn; auto. }
+    destruct H1 as (A1 & B1 & C1).
+    destruct (raised o1); [injection E as <- <-; auto|].
+    destruct (recv_msgs c1 now r orcs') as [c2 o2] eqn:E2. injection E as <- <-.
+    destruct (IH _ _ _ _ _ E2) as (A2 & B2 & C2). split; [congruence|]. split; [|congruence].
+    destruct B2 as [B2|B2]; [rewrite B2; exact B1|right; exact B2].
+Qed.
